@@ -96,7 +96,7 @@ class World:
         found = None
         for e in reversed(self.model):
             if e[1] == nname:
-                if e[3]:
+                if e[3] == "important":  # (only this priority: "!ie", which log mode keeps, is not it)
                     return e
                 if found is None:
                     found = e
@@ -233,6 +233,35 @@ class World:
                 else:
                     self.stats["probe:rejected_op"] += 1
                     out = "rejected"
+        elif k == "set_literal":
+            # update addressed by the literal (not normalised) name: the effective entry of that literal name
+            name, value, prio = op["name"], op["value"], op.get("prio", "")
+            ok, cv, cp = self.acceptable(name, value, prio)
+            if ok is None or not value:
+                return "skip"
+            kk, v = lib.call(b.setProperty, name, value, prio, False, True)
+            if kk == "exc":
+                self.stats["unexpected:" + lib.ename(v)] += 1
+                return "exc"
+            if ok:
+                lit = name.lower()
+                eff = None
+                for e in reversed(self.model):
+                    if e[0] == lit:
+                        if e[3] == "important":
+                            eff = e
+                            break
+                        if eff is None:
+                            eff = e
+                if eff is not None:
+                    eff[2], eff[3] = cv, cp
+                else:
+                    self.model.append([lit, normalize(name), cv, cp])
+                self.stats["accepted"] += 1
+                out = "accepted"
+            else:
+                self.stats["probe:rejected_op"] += 1
+                out = "rejected"
         elif k in ("remove", "delitem", "delattr"):
             name = op["name"]
             nname = normalize(name)
@@ -434,8 +463,11 @@ def gen_op(r, w, i):
     if i == 0 and cfg["init"]:
         k = "text"
     else:
-        k = r.choice(["set", "set", "set", "setitem", "setattr", "remove", "delitem", "delattr", "text", "getattr", "reparse"])
+        k = r.choice(["set", "set", "set", "setitem", "setattr", "remove", "delitem", "delattr", "text", "getattr", "reparse", "set_literal"])
     name = r.choice(cfg["names"])
+    if k == "set_literal":
+        # (documented: the name is given in lower case when it is not normalised)
+        return {"op": k, "name": name.lower(), "value": r.choice(VALUES), "prio": r.choice(PRIOS)}
     if k in ("set", "setitem"):
         return {"op": k, "name": name, "value": r.choice(BAD_VALUES if bad else VALUES), "prio": r.choice(BAD_PRIOS if (bad and r.random() < 0.3) else PRIOS), "replace": r.random() < 0.7}
     if k == "setattr":
@@ -445,6 +477,6 @@ def gen_op(r, w, i):
     if k == "text":
         decls = []
         for _ in range(r.randrange(0, 6)):
-            decls.append(f"{r.choice(cfg['names'])}: {r.choice(BAD_VALUES if (bad and r.random() < 0.4) else VALUES)}{r.choice(['', '', ' !important', ' ! IMPORTANT'])}")
+            decls.append(f"{r.choice(cfg['names'])}: {r.choice(BAD_VALUES if (bad and r.random() < 0.4) else VALUES)}{r.choice(['', '', ' !important', ' ! IMPORTANT'] + ([] if cfg['raise'] else [' !ie', ' !foo']))}")
         return {"op": k, "text": "; ".join(decls)}
     return {"op": k}
